@@ -125,8 +125,15 @@ func runC12(c *Ctx) {
 				if !ok || !embedsHolder(st.Val.Type()) {
 					return
 				}
-				if _, isAl := st.Addr.(*ssa.Alloc); isAl {
-					return // a local being built or copied into
+				if al, isAl := st.Addr.(*ssa.Alloc); isAl {
+					// a local being built - unless it is a NEW owner (its address outlives the function) started as a
+					// copy of an existing one: it would begin life with that owner's property chain and callbacks
+					if u, isU := st.Val.(*ssa.UnOp); isU && u.Op == token.MUL && al.Heap {
+						if _, fromLocal := u.X.(*ssa.Alloc); !fromLocal {
+							r.Check("R12.4", FuncName(fn), "a new "+namedOf(st.Val.Type()).Obj().Name()+" is not started as a copy of an existing one", st.Pos(), false, "the copy shares the original's property chain at that moment: settings made on the original show on the new owner, and later changes to the original do not")
+						}
+					}
+					return
 				}
 				// (a composite literal assigned through a pointer is compiled as "zero the target, then set the listed
 				// fields": the zeroing store is the overwrite)
